@@ -446,6 +446,41 @@ theorem blocked_send_admitted (s : State) (hi : Inv s) (n : Nat) (hw : s.pc = .w
   simp only [run, step, hpc, hslot, ↓reduceIte, hadm n, hadm3]
   exact ⟨trivial, trivial⟩
 
+/-- the same for every reachable state of every window and schedule -/
+theorem blocked_send_admitted_reachable (W : Nat) (as : List Action) (n : Nat)
+    (hw : (run (init W) as).pc = .waiting n) :
+    (run (run (init W) as) (fairSchedule (run (init W) as))).pc = .idle ∧
+    (run (run (init W) as) (fairSchedule (run (init W) as))).admitted = (run (init W) as).admitted ++ [n] :=
+  blocked_send_admitted _ (inv_run _ (inv_init W) as) n hw
+
+/-- a Send that has read the window completes: it is admitted at once or parked and then admitted -/
+theorem loaded_send_completes (s : State) (hi : Inv s) (w : Int) (n : Nat) (hpc : s.pc = .loaded w n) :
+    ∃ as, (run s as).pc = .idle ∧ (run s as).admitted = s.admitted ++ [n] := by
+  by_cases hadm : admissible s.W w n = true
+  · refine ⟨[.decide], ?_⟩
+    simp [run, step, hpc, hadm]
+  · have hs : step s .decide = some { s with pc := .waiting n } := by simp [step, hpc, hadm]
+    have hi' := inv_step s _ .decide hi hs
+    obtain ⟨h1, h2⟩ := blocked_send_admitted { s with pc := .waiting n } hi' n rfl
+    refine ⟨.decide :: fairSchedule { s with pc := .waiting n }, ?_⟩
+    simp only [run, hs]
+    exact ⟨h1, h2⟩
+
+/-- C07, liveness for every Send in progress (entered, window read, or parked), from every state that
+satisfies the invariant: some finite continuation of the schedule admits it -/
+theorem send_completes (s : State) (hi : Inv s) (n : Nat)
+    (h : s.pc = .start n ∨ (∃ w, s.pc = .loaded w n) ∨ s.pc = .waiting n) :
+    ∃ as, (run s as).pc = .idle ∧ (run s as).admitted = s.admitted ++ [n] := by
+  rcases h with h | ⟨w, h⟩ | h
+  · have hs : step s .load = some { s with pc := .loaded s.win n } := by simp [step, h]
+    have hi' := inv_step s _ .load hi hs
+    obtain ⟨as, h1, h2⟩ := loaded_send_completes { s with pc := .loaded s.win n } hi' s.win n rfl
+    refine ⟨.load :: as, ?_⟩
+    simp only [run, hs]
+    exact ⟨h1, h2⟩
+  · exact loaded_send_completes s hi w n h
+  · exact ⟨fairSchedule s, blocked_send_admitted s hi n h⟩
+
 /-! ### non-vacuity and boundary instances -/
 
 /-- W = 1 (⌊W/2⌋ = 0): a second 1-byte message is still admitted (window 0 ≥ 0), the third blocks
